@@ -284,6 +284,7 @@ static void gen_pool(int maxpool)
 {
 	int fam_mode = vh_rn(5); /* 0,1: v4  2,3: v6  4: mixed */
 	int shape = vh_rn(5);
+	bool noncanon = vh_chance(25); /* some pools carry prefixes with host bits set: distinct records with the same leading bits */
 	int want = 4 + vh_rn(maxpool - 3);
 	struct lrtr_ip_addr base4, base6;
 
@@ -338,13 +339,16 @@ static void gen_pool(int maxpool)
 			break;
 		}
 		mask_addr(&a, len);
-		int variants = 1 + vh_rn(3);
+		int variants = 1 + vh_rn(noncanon ? 7 : 3);
 
 		for (int v = 0; v < variants && npool < want; v++) {
 			struct pfx_record *r = &pool[npool];
 
 			memset(r, 0, sizeof(*r));
 			r->prefix = a;
+			if (noncanon && len < maxb && vh_chance(70))
+				for (int hb = 1 + vh_rn(3); hb > 0; hb--)
+					flip_bit(&r->prefix, len + vh_rn(maxb - len > 6 ? 6 : maxb - len));
 			r->min_len = len;
 			switch (vh_rn(5)) {
 			case 0:
